@@ -17,6 +17,8 @@ structure RawTx where
   st : Strand
   exons : List (Int × Int)
   cds : Option (List (Int × Int))
+  /-- `cds_frames` as given on the line (`F f1 … fc` after the CDS blocks); absent = one frame per block -/
+  frames : Option (List CDSFrame)
 
 def pPlen : P (Option Nat) := do
   match (← get) with
@@ -28,9 +30,34 @@ def pCds : P (Option (List (Int × Int))) := do
   | "nc" :: rest => set rest; pure none
   | _ => do let bs ← pList pIntPair; pure (some bs)
 
+def pFrame : P CDSFrame := do
+  match (← tok) with
+  | "0" => pure .ZERO
+  | "1" => pure .ONE
+  | "2" => pure .TWO
+  | t => throw s!"frame? {t}"
+
+/-- optional `F f1 … fc` (as many frames as CDS blocks) -/
+def pFrames (c : Nat) : P (Option (List CDSFrame)) := do
+  match (← get) with
+  | "F" :: rest => do
+      set rest
+      let rec go : Nat → List CDSFrame → P (List CDSFrame)
+        | 0, acc => pure acc.reverse
+        | k+1, acc => do let f ← pFrame; go k (f :: acc)
+      let fs ← go c []
+      pure (some fs)
+  | _ => pure none
+
 def pRawTx : P RawTx := do
   let pl ← pPlen; let st ← pStrand; let ex ← pList pIntPair; let cds ← pCds
-  pure ⟨pl, st, ex, cds⟩
+  let fr ← pFrames (cds.map List.length |>.getD 0)
+  pure ⟨pl, st, ex, cds, fr⟩
+
+def framesOf (r : RawTx) : List CDSFrame :=
+  match r.frames with
+  | some fs => fs
+  | none => List.replicate (r.cds.map List.length |>.getD 0) .ZERO
 
 def toBlks (bs : List (Int × Int)) : List Blk := bs.map fun b => (b.1.toNat, b.2.toNat)
 
@@ -42,7 +69,7 @@ def build (r : RawTx) : R Transcript :=
   let all := r.exons ++ (r.cds.getD [])
   if all.any (fun b => b.1 < 0 ∨ b.2 < 0) then throw .InvalidPosition
   else if (match r.plen with | some n => all.any (fun b => b.2 > n) | none => false) then throw .InvalidPosition
-  else mkTranscript (toBlks r.exons) r.st (r.cds.map toBlks) r.plen
+  else mkTranscriptF (toBlks r.exons) r.st (r.cds.map toBlks) (framesOf r) r.plen
 
 def showCell : R Int → String
   | .ok v => toString v
@@ -101,7 +128,7 @@ def ops : List (String × Op) := [
 def buildChunk (r : RawTx) (ws we : Nat) (wst : Strand) : R ChunkTranscript :=
   let all := r.exons ++ (r.cds.getD [])
   if all.any (fun b => b.1 < 0 ∨ b.2 < 0) then throw .InvalidPosition
-  else mkChunkTranscript (toBlks r.exons) r.st (r.cds.map toBlks) (ws, we) wst
+  else mkChunkTranscriptF (toBlks r.exons) r.st (r.cds.map toBlks) (framesOf r) (ws, we) wst
 
 def showVecC (t : R ChunkTranscript) (lo hi : Int) (f : ChunkTranscript → Int → R Int) : String :=
   match t with
@@ -134,6 +161,7 @@ def chunkOps : List (String × Op) := [
   ("kd2c", kvecOp fun c => c.base.cdsPosToSequence),
   ("kd2t", kvecOp fun c => c.base.cdsPosToTranscript),
   ("kt2d", kvecOp fun c => c.base.transcriptPosToCds),
+  ("kaa", kvecOp fun c => c.base.sequencePosToAminoAcid),
   ("kci2t", kivOp fun c => c.base.sequenceIntervalToTranscript),
   -- chunk-relative methods
   ("cr2t", kvecOp chunkRelativePosToTranscript),
